@@ -269,6 +269,7 @@ func init() {
 			}
 			c.Variant.Perm = perm
 			c.Variant.Defer = rapid.Bool().Draw(t, "toggledefer")
+			c.Variant.Hoist = rapid.Bool().Draw(t, "hoistscopes")
 			return c
 		},
 		Check: checkC16,
@@ -279,9 +280,43 @@ func init() {
 // ops are reordered inside blocks delimited by Invoke/Visualize/String ops
 // (and only inside blocks where `permutable` holds); scope references stay
 // legal (a scope is created after its parent and before its first use).
-func permutedOrder(c *Case, keys []int, permutable func(block []int) bool) []int {
+func permutedOrder(c *Case, keys []int, permutable func(block []int) bool, hoist bool) []int {
 	var order []int
 	var block []int
+	seq := make([]int, len(c.Ops))
+	for i := range seq {
+		seq[i] = i
+	}
+	if hoist {
+		// create every scope right after its parent (root's children first
+		// of all), keeping the relative order of everything else
+		creator := map[int]int{} // scope index -> op index
+		nn := 1
+		for i, op := range c.Ops {
+			if op.K == OpScope {
+				creator[nn] = i
+				nn++
+			}
+		}
+		var rest []int
+		for i, op := range c.Ops {
+			if op.K != OpScope {
+				rest = append(rest, i)
+			}
+		}
+		var scopesFirst []int
+		var place func(parent int)
+		place = func(parent int) {
+			for sidx := 1; sidx < nn; sidx++ {
+				if c.Ops[creator[sidx]].S == parent {
+					scopesFirst = append(scopesFirst, creator[sidx])
+					place(sidx)
+				}
+			}
+		}
+		place(0)
+		seq = append(scopesFirst, rest...)
+	}
 	created := map[int]bool{0: true}
 	scopeIdx := map[int]int{}
 	n := 1
@@ -333,8 +368,8 @@ func permutedOrder(c *Case, keys []int, permutable func(block []int) bool) []int
 		}
 		block = nil
 	}
-	for i, op := range c.Ops {
-		switch op.K {
+	for _, i := range seq {
+		switch c.Ops[i].K {
 		case OpInvoke, OpVisualize, OpString:
 			flush()
 			order = append(order, i)
@@ -364,7 +399,10 @@ func checkC16(c *Case, st *Stats) *Failure {
 		}
 		return true
 	}
-	order := permutedOrder(c, keys, allAccepted)
+	order := permutedOrder(c, keys, allAccepted, c.Variant != nil && c.Variant.Hoist)
+	if c.Variant != nil && c.Variant.Hoist {
+		l["scopes-hoisted"] = true
+	}
 	// classify the permutation
 	pos := make([]int, len(c.Ops))
 	for p, i := range order {
